@@ -1,6 +1,7 @@
 import LdkModel.Driver.Util
 import LdkModel.Model.Codec
 import LdkModel.Generated.MsgSchemas
+import LdkModel.Model.MsgSchemasHand
 import LdkModel.Generated.WireTypes
 /-! C13 model driver.  ops:
     dec <MsgName> <hex>    decode with the generated schema of <MsgName>; `ok <hex of re-encoding>` / `err <DecodeError>`
@@ -11,10 +12,11 @@ import LdkModel.Generated.WireTypes
 namespace Ldk.Driver
 open Ldk.Codec Ldk.Codec.Gen
 
-/-- the dispatch table of `wire::do_read` restricted to the messages the model has a schema for -/
+/-- the dispatch table of `wire::do_read` restricted to the messages the model has a `Schema` for (macro-declared and
+    hand-written with a TLV stream; the `TailSchema` gossip messages are compared at message level only) -/
 def wireTable : List (Nat × Schema) :=
   wireDispatch.filterMap fun n =>
-    match generatedSchemas.find? (fun s => s.name == n), wireTypes.lookup n with
+    match (generatedSchemas ++ Hand.handSchemas).find? (fun s => s.name == n), wireTypes.lookup n with
     | some s, some t => some (t, s)
     | _, _ => none
 
@@ -24,12 +26,31 @@ def c13 : Drv where
   step := fun _ ws =>
     match ws with
     | ["dec", name, h] =>
-      match generatedSchemas.find? (fun s => s.name == name) with
-      | none => ((), "no-schema")
+      match (generatedSchemas ++ Hand.handSchemas).find? (fun s => s.name == name) with
       | some s =>
         match s.decode (unhex h) with
         | .ok v => ((), "ok " ++ hex (s.encode v))
         | .error e => ((), "err " ++ e.name)
+      | none =>
+        match Hand.tailSchemas.find? (fun s => s.name == name) with
+        | none =>
+          if name == "ErrorMessage" || name == "WarningMessage" then
+            match Hand.decodeErrorMsg (unhex h) with
+            | .ok (cid, d) => ((), "ok " ++ hex (Hand.encodeErrorMsg cid d))
+            | .error e => ((), "err " ++ e.name)
+          else if name == "Ping" then
+            match Hand.decodePing (unhex h) with
+            | .ok (pl, bl) => ((), "ok " ++ hex (Hand.encodePing pl bl))
+            | .error e => ((), "err " ++ e.name)
+          else if name == "Pong" then
+            match Hand.decodePong (unhex h) with
+            | .ok bl => ((), "ok " ++ hex (Hand.encodePong bl))
+            | .error e => ((), "err " ++ e.name)
+          else ((), "no-schema")
+        | some s =>
+          match s.decode (unhex h) with
+          | .ok (vs, ex) => ((), "ok " ++ hex (s.encode vs ex))
+          | .error e => ((), "err " ++ e.name)
     | ["wire", h] =>
       match wireRead wireTable (unhex h) with
       | .error e => ((), "err " ++ e.name)
